@@ -8,6 +8,9 @@ import numpy as np
 import scipy.integrate as si
 
 
+ONE_MINUS = float(np.nextafter(1.0, 0.0))
+
+
 def _pieces(rsl):
     a = rsl.args
     reg = (lambda z: rsl.reg(z, a["reg"])) if rsl.reg is not None else None
@@ -68,7 +71,7 @@ def conv(rsl, xi, p, breaks_u=(), extra_z=(), epsrel=1e-11, limit=200):
 def int_sing(rsl, x0, x1, absolute=False):
     """int_{x0}^{x1} sing(z) dz (or of |sing| with absolute=True: a cancellation-free scale)"""
     _, sing0, _ = _pieces(rsl)
-    sing = (lambda z: abs(sing0(z))) if absolute else sing0
+    sing = (lambda z: abs(sing0(min(z, ONE_MINUS)))) if absolute else (lambda z: sing0(min(z, ONE_MINUS)))
     pts = [x for x in (1 - 1e-2, 1 - 1e-4, 1 - 1e-6) if x0 < x < x1]
     tot = err = 0.0
     edges = [x0] + pts + [x1]
@@ -88,9 +91,10 @@ def moment(rsl, N, xsplit=None, zmax=1.0):
     reg, sing, loc = _pieces(rsl)
     x = 0.0 if xsplit is None else xsplit
 
-    def q(f, a, b):
+    def q(f0, a, b):
         if b <= a:
             return 0.0
+        f = lambda z: f0(min(max(z, 1e-300), ONE_MINUS))  # noqa: E731  (quadrature nodes can round onto the end points)
         pts = sorted({a, b, *[y for y in (1e-6, 1e-3, 0.5, 1 - 1e-2, 1 - 1e-4, 1 - 1e-7) if a < y < b]})
         return sum(si.quad(f, u, v, epsabs=1e-14, epsrel=1e-11, limit=200)[0] for u, v in zip(pts[:-1], pts[1:]))
 
